@@ -96,7 +96,8 @@ Inductive storage : Type :=
 | SSeqPrim (p : prim) (l : list Z)
 | SSeqStr (l : list (list Z))
 | SComplex (d : list (Z * storage))
-| SSeqComplex (l : list (list (Z * storage))).
+| SSeqComplex (l : list (list (Z * storage)))
+| SOther.        (* a DataStorage variant that none of the modelled types maps to (Float128, ...) *)
 Definition dyn : Type := list (Z * storage).
 
 Definition dget (k : Z) (d : dyn) : option storage :=
